@@ -3,7 +3,7 @@
 P=$1; shift
 git -C /repo apply "$P" || { echo "patch does not apply to /repo"; exit 2; }
 for prop in "$@"; do
-  out=$(cd /verif && ./check $prop --tier quick 2>&1 | tail -3)
+  out=$(cd /verif && VERIF_EVIDENCE_DIR=/tmp/verif-mutant-evidence ./check $prop --tier quick 2>&1 | tail -3)
   echo "--- $prop: $out"
 done
 git -C /repo checkout -- .
